@@ -370,6 +370,8 @@ enum MediaCall {
     Unk(Vec<String>),
     Push(Vec<SegCall>),
     Segs(Vec<Vec<SegCall>>),
+    /// last call of a script: `builder.parse(text)` instead of `builder.build()`
+    Parse(String),
 }
 
 fn one<'a>(args: &[&'a str]) -> Res<&'a str> {
@@ -409,6 +411,7 @@ fn p_media_script(script: &str) -> Res<Vec<MediaCall>> {
             }
             "ex" => MediaCall::Ex(p_dur(one(args)?)?),
             "unk" => MediaCall::Unk(p_texts(args)?),
+            "parse" => MediaCall::Parse(p_text(one(args)?)?),
             "push" => MediaCall::Push(p_seg(args)?),
             "segs" => {
                 if args.is_empty() {
@@ -430,8 +433,15 @@ fn p_media_script(script: &str) -> Res<Vec<MediaCall>> {
 fn build_media_with<R>(script: &str, f: impl FnOnce(&MediaPlaylist<'_>) -> R) -> Res<R> {
     let calls = p_media_script(script)?;
     let mut b = MediaPlaylist::builder();
-    for c in &calls {
+    let mut parse_text: Option<&String> = None;
+    for (i, c) in calls.iter().enumerate() {
         match c {
+            MediaCall::Parse(t) => {
+                if i + 1 != calls.len() {
+                    return Err(Fail::Bad);
+                }
+                parse_text = Some(t);
+            }
             MediaCall::Td(d) => {
                 b.target_duration(*d);
             }
@@ -475,7 +485,10 @@ fn build_media_with<R>(script: &str, f: impl FnOnce(&MediaPlaylist<'_>) -> R) ->
             }
         }
     }
-    let playlist = b.build().map_err(|_| Fail::Err)?;
+    let playlist = match parse_text {
+        Some(t) => b.parse(t).map_err(|_| Fail::Err)?,
+        None => b.build().map_err(|_| Fail::Err)?,
+    };
     Ok(f(&playlist))
 }
 
